@@ -14,6 +14,10 @@
      sdk.NewCoin(denom, amt) panics when Validate fails (nil or negative amount)
      gogoproto: an absent (or empty) customtype field is left as the zero value: Int{} / LegacyDec{} with a nil pointer.
 
+   Transcribed from /repo at the commits that repaired findings C20-1..C20-6 (51457a3 Params nil Dec, cac8fd3 MsgBridgeCall
+   nil value/amount, edafc05 MsgBridgeCallClaim amounts, 02a5a38 MsgServer.Confirm nil Any).  The validators as they were
+   BEFORE those commits are kept, clearly separated, in model/M_ValidateHist.v.
+
    A validator is a function into  VOk | VErr tag | VPanic.  The tag is the leading text of the Go error
    (used only by the strict correspondence mode).  No proofs here. *)
 From Coq Require Import ZArith List Bool String.
@@ -74,6 +78,7 @@ Definition int_isneg (i : intv) : R bool := match int_sign i with Pan => Pan | V
 Definition int_ispos (i : intv) : R bool := match int_sign i with Pan => Pan | Val s => Val (s =? 1) end.
 Definition int_nonzero (i : intv) : R bool := match int_sign i with Pan => Pan | Val s => Val (negb (s =? 0)) end.
 Definition dec_isneg (d : decv) : R bool := match d with DNil => Pan | DNeg => Val true | _ => Val false end.
+Definition dec_isnil (d : decv) : bool := match d with DNil => true | _ => false end.
 Definition dec_gt_one (d : decv) : R bool := match d with DNil => Pan | DBig => Val true | _ => Val false end.
 
 (* sdk.Coin.IsValid / IsPositive ; the Go expression  !c.IsValid() || !c.IsPositive()  and friends *)
@@ -106,6 +111,8 @@ Definition coins_validate (cs : list coinv) : vres :=
       coins_validate_rest (cd_id c) r
   end.
 
+Definition coins_nil_amount (cs : list coinv) : bool := existsb (fun c => int_isnil (c_amt c)) cs.
+
 (* ---------------- x/crosschain/types/params.go : Params.ValidateBasic ---------------- *)
 
 Inductive gidv := GEmpty | GLong | GOk.   (* GravityId: "" | more than 32 bytes | fits bytes32 *)
@@ -121,6 +128,8 @@ Definition v_Params (m : xparams) : vres :=
   CHECK (pure (p_batch_timeout m <? 60000)) FAIL "invalid target batch timeout" ;;
   CHECK (pure (p_avg_ext_block m <? 100)) FAIL "invalid average external block time" ;;
   CHECK (pure (p_signed_window m <=? 1)) FAIL "invalid signed window too short" ;;
+  CHECK (pure (dec_isnil (p_slash m))) FAIL "slash fraction cannot be empty" ;;                                  (* 51457a3 *)
+  CHECK (pure (dec_isnil (p_power_change m))) FAIL "oracle set update power change percent cannot be empty" ;;   (* 51457a3 *)
   CHECK (dec_isneg (p_slash m)) FAIL "attempted to slash with a negative slash factor" ;;
   CHECK (dec_gt_one (p_slash m)) FAIL "slash factor too large" ;;
   CHECK (pure (p_ibc_timeout_height m <=? 1)) FAIL "invalid ibc transfer timeout too short" ;;
@@ -276,10 +285,16 @@ Fixpoint tokens_loop (c : chainv) (l : list extv) : vres :=
   | [] => VOk
   | t :: r => CHECK (pure (negb (ext_ok c t))) FAIL "invalid token contract" ;; tokens_loop c r
   end.
+Fixpoint amounts_loop (l : list intv) : vres :=                                                    (* edafc05 *)
+  match l with
+  | [] => VOk
+  | a :: r => CHECK (int_nil_or_neg a) FAIL "invalid amount" ;; amounts_loop r
+  end.
 Definition v_MsgBridgeCallClaim (m : c_bridge_call) : vres :=
   CHECK (unknown_chain (bc_chain m)) FAIL UC ;;
   CHECK (pure (negb (Nat.eqb (List.length (bc_tokens m)) (List.length (bc_amounts m))))) FAIL "mismatched token contracts and amounts" ;;
   SUB (tokens_loop (bc_chain m) (bc_tokens m)) ;;
+  SUB (amounts_loop (bc_amounts m)) ;;
   (* m.validateBasic() *)
   CHECK (pure (negb (acc_ok (bc_bridger m)))) FAIL "invalid bridger address" ;;
   CHECK (pure (negb (ext_ok (bc_chain m) (bc_sender m)))) FAIL "invalid sender address" ;;
@@ -369,12 +384,13 @@ Definition v_MsgClaim (m : m_claim) : vres :=
   | AnyIs c => v_claim c
   end.
 
-(* MsgConfirm has NO ValidateBasic: the first code that looks at it is the handler,
-   keeper/msg_server.go:Confirm :  msg.Confirm.GetCachedValue().(types.Confirm)  — a method call on a nil *Any *)
+(* MsgConfirm has NO ValidateBasic: the first code that looks at it is the handler, keeper/msg_server.go:Confirm :
+     if msg.Confirm == nil { return ErrInvalid "empty confirm" }              (02a5a38)
+     confirm, ok := msg.Confirm.GetCachedValue().(types.Confirm); if !ok { return ErrInvalid "invalid claim" } *)
 Record m_confirm_wrapper := { mw_confirm : anyv m_confirm }.
 Definition h_MsgConfirm_entry (m : m_confirm_wrapper) : vres :=
   match mw_confirm m with
-  | AnyNil => VPanic
+  | AnyNil => VErr "empty confirm"
   | AnyOther => VErr "invalid claim"
   | AnyIs _ => VOk   (* goes on to the stateful ConfirmHandler (property C12) *)
   end.
@@ -385,7 +401,8 @@ Definition v_MsgBridgeCall (m : m_bridge_call) : vres :=
   CHECK (unknown_chain (mb_chain m)) FAIL UC ;;
   CHECK (pure (negb (acc_ok (mb_sender m)))) FAIL "invalid sender address" ;;
   CHECK (pure (negb (ext_ok (mb_chain m) (mb_to m)))) FAIL "invalid to address" ;;
-  CHECK (int_nonzero (mb_value m)) FAIL "value must be zero" ;;                      (* m.Value.Sign() != 0 : no nil check *)
+  CHECK (orR (pure (int_isnil (mb_value m))) (int_nonzero (mb_value m))) FAIL "value must be zero" ;;   (* m.Value.IsNil() || m.Value.Sign() != 0  (cac8fd3) *)
+  CHECK (pure (coins_nil_amount (mb_coins m))) FAIL "nil coin amount" ;;             (* for coin: if coin.Amount.IsNil() (cac8fd3) *)
   SUBW (coins_validate (mb_coins m)) AS "" ;;                                        (* ErrInvalidCoins.Wrap(err.Error()) *)
   CHECK (pure ((match mb_coins m with [] => false | _ => true end || negb match mb_refund m with BEmpty => true | _ => false end)
                && negb (acc_ok (mb_refund m)))) FAIL "invalid refund address" ;;
@@ -681,6 +698,24 @@ Definition validate_external_addr (c : chainv) (x : extv) : vres :=
   | _ => if ext_ok c x then VOk else VErr ""
   end.
 
+(* ---------------- ante/pubkey.go:PubKeyDecorator.AnteHandle and ante/ante.go:ConsumeMultisignatureVerificationGas ---------------- *)
+(* PubKeyDecorator: npub = len(AuthInfo.SignerInfos) (attacker chosen), nsig = number of required signers of the messages;
+   every signer account exists and is not disabled (the harness arranges that):
+     if len(pubkeys) > len(signers) { return ErrUnauthorized "invalid number of signer infos…" }   (d9036ed)
+     for i := range pubkeys { checkPubKeyDisabled(ctx, ak, signers[i]) } *)
+Definition v_PubKeyDecorator (npub nsig : Z) : vres :=
+  CHECK (pure (nsig <? npub)) FAIL "invalid number of signer infos" ;;
+  CHECK (if npub <=? nsig then Val false else Pan) FAIL "" ;;        (* signers[i], i < npub: in range exactly when npub <= nsig *)
+  VOk.
+(* ConsumeMultisignatureVerificationGas: size = bits in the bit array, nkeys = sub-keys of the multisig key,
+   ntrue = set bits, nsigs = sub-signatures; sub-keys are secp256k1/eth_secp256k1 (gas consumption succeeds):
+     if size != len(keys) || NumTrueBitsBefore(size) != len(sigs) { return error }                    (5723147)
+     for i < size: if bit i { keys[i], sigs[sigIndex] … } *)
+Definition v_MultisigGas (size nkeys ntrue nsigs : Z) : vres :=
+  CHECK (pure (negb (size =? nkeys) || negb (ntrue =? nsigs))) FAIL "multisig bit array does not match" ;;
+  CHECK (if (size <=? nkeys) && (ntrue <=? nsigs) then Val false else Pan) FAIL "" ;;
+  VOk.
+
 (* ---------------- one sum type of everything modelled (used by the correspondence file and the coverage obligations) ---------------- *)
 Inductive vinput :=
 | I_Params (m : xparams) | I_MsgUpdateParams (m : m_update_params) | I_MsgBondedOracle (m : m_bonded_oracle)
@@ -698,7 +733,8 @@ Inductive vinput :=
 | I_CustomParams (p : v_custom) | I_MsgCallContract (m : x_call_contract)
 | I_StakingArgs (a : sargs) | I_CrosschainArgs (a : cargs)
 | I_ValidateExternalAddr (c : chainv) (x : extv)
-| I_IbcCallEvmPacket (m : i_call_evm).
+| I_IbcCallEvmPacket (m : i_call_evm)
+| I_PubKeyDecorator (npub nsig : Z) | I_MultisigGas (size nkeys ntrue nsigs : Z).
 
 Definition validate (i : vinput) : vres :=
   match i with
@@ -718,22 +754,19 @@ Definition validate (i : vinput) : vres :=
   | I_StakingArgs a => v_staking_args a | I_CrosschainArgs a => v_crosschain_args a
   | I_ValidateExternalAddr c x => validate_external_addr c x
   | I_IbcCallEvmPacket m => v_IbcCallEvmPacket m
+  | I_PubKeyDecorator np ns => v_PubKeyDecorator np ns
+  | I_MultisigGas sz nk nt ns => v_MultisigGas sz nk nt ns
   end.
 
-(* inputs on which the faithful model panics: exactly the defects recorded in docs/findings/C20-*.md *)
-Definition params_nil_dec (p : xparams) : bool :=
-  match p_slash p, p_power_change p with DNil, _ | _, DNil => true | _, _ => false end.
-Definition coins_nil_amount (cs : list coinv) : bool := existsb (fun c => int_isnil (c_amt c)) cs.
-Definition known_panic_input (i : vinput) : bool :=
+(* Inputs that no decoder in front of the validators can produce, although a Go caller could build them:
+     - a nil *big.Int in precompile arguments: go-ethereum's abi.Unpack always allocates the value of a uint256;
+     - a nil Int in the IBC memo packet: the memo is JSON and an absent "value" is decoded to a fresh zero Int.
+   The harness checks both facts on the real decoders every run. They are the only inputs excluded from C20_validate_total. *)
+Definition decodable (i : vinput) : bool :=
   match i with
-  | I_Params p => params_nil_dec p
-  | I_MsgUpdateParams m => params_nil_dec (up_params m)
-  | I_MsgBridgeCall m => int_isnil (mb_value m) || coins_nil_amount (mb_coins m)
-  | I_MsgConfirm m => match mw_confirm m with AnyNil => true | _ => false end
-  | I_CrosschainArgs a => negb (cargs_from_abi a)
-  | I_IbcCallEvmPacket m => int_isnil (ic_value m)
-  | I_StakingArgs _ => false
-  | _ => false
+  | I_CrosschainArgs a => cargs_from_abi a
+  | I_IbcCallEvmPacket m => negb (int_isnil (ic_value m))
+  | _ => true
   end.
 
 (* the Go type names the model covers (checked against the generated universe in proofs/P_ValidateGen.v) *)
